@@ -23,3 +23,6 @@ open Biogo.Properties.C05
 #print axioms operation_is_local
 #print axioms untouched_object_unchanged_all
 #print axioms clone_deep_all
+#print axioms row_revcomp_spec_alignment
+#print axioms row_reverse_spec_alignment
+#print axioms row_revcomp_involutive_alignment
